@@ -1630,6 +1630,7 @@ func (db *DB) CommitWAL(ctx context.Context) (err error) {
 	frame := make([]byte, walFrameSize)
 	newWALChksums := make(map[uint32]ltx.Checksum)
 	lockPgno := ltx.LockPgno(db.pageSize)
+	dbMode := db.Mode()
 	for _, pgno := range pgnos {
 		if pgno == lockPgno {
 			TraceLog.Printf("[CommitWALPage(%s)]: pgno=%d SKIP(LOCK_PAGE)\n", db.name, pgno)
@@ -1642,6 +1643,16 @@ func (db *DB) CommitWAL(ctx context.Context) (err error) {
 			return fmt.Errorf("read next frame: %w", err)
 		}
 		pgno := binary.BigEndian.Uint32(frame[0:4])
+
+		// The journal mode can be switched back from WAL by rewriting the
+		// write/read versions of the first page.
+		if pgno == 1 {
+			if frame[WALFrameHeaderSize+18] == 2 && frame[WALFrameHeaderSize+19] == 2 {
+				dbMode = DBModeWAL
+			} else {
+				dbMode = DBModeRollback
+			}
+		}
 
 		// Copy page into LTX file.
 		if err := enc.EncodePage(ltx.PageHeader{Pgno: pgno}, frame[WALFrameHeaderSize:]); err != nil {
@@ -1740,6 +1751,7 @@ func (db *DB) CommitWAL(ctx context.Context) (err error) {
 
 	// Move the WAL position forward and reset the segment size.
 	db.pageN.Store(commit)
+	db.mode.Store(dbMode)
 	db.wal.offset = endOffset
 	db.wal.chksum1 = chksum1
 	db.wal.chksum2 = chksum2
